@@ -398,7 +398,7 @@ func init() {
 		ID: "C07",
 		Rule: "module file sets: 2 files x <= 2 declarations and 3 x <= 1 (quick; thorough adds 3 x <= 2 and 2 x <= 3 over the conflict-relevant sub-menu of 7 declarations) from a menu of 13 declarations " +
 			"(types with/without relations, extensions with fresh / clashing / no relations, extension of an undefined type, conditions), plus sets completed by one of 7 malformed members " +
-			"(model-header files with/without relations/conditions, syntax errors, module without name, type extended twice), plus the many-extenders family (four files: t1 defined without relations / with a relation / defined and extended in one file, and three files that each extend it with x, y, x and y, nothing, or mind their own type: 375 sets) and the two-targets family (one file extending two different types in either order, each with a relation the other type has, a fresh one, or its own; base types in one file or two; optionally one more extender: 108 sets) and size sweeps (n = 5, 13, 33 quick: n files extending one type with and without a conflict between a middle and a late one; one extension with n relations and a later file clashing with the first / middle / last / none; n extend blocks in one file; n types and n conditions with the middle one defined again; file lists longer than four in five orders instead of all; schedules: single deviations up to 24 declarations, default schedule above) x every permutation of the file list x schema versions " +
+			"(model-header files with/without relations/conditions, syntax errors, module without name, type extended twice), plus the many-extenders family (four files: t1 defined without relations / with a relation / defined and extended in one file, and three files that each extend it with x, y, x and y, nothing, or mind their own type: 375 sets) and the two-targets family (one file extending two different types in either order, each with a relation the other type has, a fresh one, or its own; base types in one file or two; optionally one more extender of either type, also with the name the two-target file gives its other type: 180 sets) and size sweeps (n = 5, 13, 33 quick: n files extending one type with and without a conflict between a middle and a late one; one extension with n relations and a later file clashing with the first / middle / last / none; n extend blocks in one file; n types and n conditions with the middle one defined again; file lists longer than four in five orders instead of all; schedules: single deviations up to 24 declarations, default schedule above) x every permutation of the file list x schema versions " +
 			"x map schedules of the merger's six map-iteration sites (budget 1 quick / 2 thorough); each set also with its files rendered in another uniform layout style (blank lines, comments, tabs, CRLF, extra spaces; rotating, all styles for every 16th set). Oracle: reference merge over the declarations the generator wrote. " +
 			"states = distinct outcomes (models or error lists), non-trivial = distinct file sets",
 		Assume: []string{
